@@ -288,6 +288,12 @@ def dec_int_content(b: bytes, signed: bool = True) -> int:
     return int.from_bytes(b, "big", signed=signed)
 
 
+def _minimal_int(c: bytes) -> None:
+    """X.690 8.3.2: the first nine bits are neither all zero nor all one"""
+    if len(c) > 1 and ((c[0] == 0x00 and c[1] < 0x80) or (c[0] == 0xFF and c[1] >= 0x80)):
+        raise BerError("integer content %s is not minimal" % c.hex())
+
+
 def dec_oid_content(b: bytes) -> Tuple[int, ...]:
     if not b:
         return ()
@@ -330,12 +336,20 @@ def dec_value(node: TLV, check_range: bool = False) -> Tuple[str, Any]:
     c = node.content
     if kind == "int":
         v = dec_int_content(c)
+        if check_range:
+            _minimal_int(c)
     elif kind in UNSIGNED_KINDS:
-        # RFC 3416: unsigned types are encoded like INTEGER (two's
-        # complement, so values with the top bit set carry a leading zero
-        # octet).  Agents exist that omit it; read the octets as an unsigned
-        # magnitude unless the sign bit of a *full-width + 1* encoding is set.
-        v = dec_int_content(c, signed=False)
+        # RFC 3416: the unsigned types are IMPLICIT INTEGERs, i.e. two's
+        # complement: values with the top bit set carry a leading zero octet.
+        # Agents exist that omit it, so responses are read as an unsigned
+        # magnitude.  What the *client* emits (check_range=True: requests) is
+        # read the way the standard says - a missing sign octet makes the
+        # value negative and therefore out of range.
+        if check_range:
+            v = dec_int_content(c, signed=True)
+            _minimal_int(c)
+        else:
+            v = dec_int_content(c, signed=False)
     elif kind in ("str", "opaque"):
         v = c
     elif kind in ("null", "nso", "nsi", "eomv"):
